@@ -107,8 +107,9 @@ def _content(path, width, kind, number, param_value):
             return str(kind[names.index("Enum")][1][0][1]).ljust(width).encode(), None
         if name in TEXTS:
             return TEXTS[name].ljust(width)[:width].encode(), TEXTS[name][:width].strip()
-        text = ("f%d" % number)[:width]
-        return text.ljust(width).encode(), text
+        # fill the whole field (no padding): a width moved between two neighbouring text fields must show
+        text = ("f%d" % number + "abcdefghijklmnopqrstuvwxyz" * (width // 26 + 1))[:width]
+        return text.encode(), text
     if last == "Bytes":
         return bytes(width), None
     raise ValueError(f"unknown pinned kind {kind}")
